@@ -259,6 +259,41 @@ func TestC16(t *testing.T) {
 		}
 		out.Stats.Extra["registered_server_types"] = implTypes
 	}
+	// ---- the dependency handlers the translator read from the module cache: every routed authority message that is not
+	// an fx-core type must be among them, served by the type and method it found
+	depImpl := map[string][2]string{} // Go message type -> (receiver type, method)
+	if fp := os.Getenv("VERIF_FACTS"); fp != "" {
+		if bz, err := os.ReadFile(fp); err == nil {
+			var facts map[string]json.RawMessage
+			_ = json.Unmarshal(bz, &facts)
+			var dis []map[string]string
+			if json.Unmarshal(facts["C16.depImpls"], &dis) == nil && len(dis) > 0 {
+				for _, d := range dis {
+					depImpl[d["msg"]] = [2]string{d["recv"], d["method"]}
+				}
+				for _, u := range authMsgs {
+					if _, fx := fxURL[u]; fx {
+						continue
+					}
+					pm, _ := app.InterfaceRegistry().Resolve(u)
+					k := msgKey(pm.(sdk.Msg))
+					d, ok := depImpl[k]
+					if !ok {
+						out.Violate("routed authority message " + u + " (" + k + ") of a dependency has no handler in the regenerated dependency table")
+						continue
+					}
+					if sv, ok := servers[u]; ok {
+						if sv.method.MethodName != d[1] {
+							out.Violate("dependency message " + k + " is served by method " + sv.method.MethodName + ", the regenerated table says " + d[1])
+						}
+						if !strings.HasPrefix(sv.implType, "x/") && sv.implType != d[0] {
+							out.Violate("dependency message " + k + " is served by a value of type " + sv.implType + ", the regenerated table says " + d[0])
+						}
+					}
+				}
+			}
+		}
+	}
 
 	// ---- valid payload builders for the fx-core messages
 	// a contract that exists, so that a governance-authorised MsgCallContract really takes effect
@@ -718,7 +753,18 @@ func TestC16(t *testing.T) {
 						out.Count("hmon:" + c.kind)
 						if hres != "ok" {
 							out.Count("hmon-panic:" + u)
-						} else if herr == nil && !strings.EqualFold(gov, c.val) {
+						} else if d, dep := depImpl[msgKey(m)]; dep && !strings.HasSuffix(u, "MsgExecLegacyContent") {
+							// correspondence with the model of the regenerated dependency handler
+							obs := "rejected"
+							if herr == nil {
+								obs = "past-guard"
+							} else if ch := hx.DiffDump(baseDump, hx.DumpAll(hctx, keys)); len(ch) > 0 {
+								obs = "rejected-but-changed:" + strings.Join(ch, ",")
+							}
+							out.Emit(fmt.Sprintf("dcall %s %s %s %s", d[0], d[1], hx.HexS(gov), dash(hx.HexS(c.val))), obs)
+							out.Count("dcall:" + obs)
+						}
+						if hres == "ok" && herr == nil && !strings.EqualFold(gov, c.val) {
 							out.ViolateWith(fmt.Sprintf("handler level: privileged message %s delivered directly to the registered Msg server %s took effect with non-governance authority kind=%s (%q)", u, sv.implType, c.kind, c.val),
 								[]string{"# monitor: " + sv.service + "/" + sv.method.MethodName + " on " + sv.implType + " with Authority=" + fmt.Sprintf("%q", c.val) + " returned no error"})
 						}
